@@ -394,7 +394,7 @@ func raceGCS(seed int64) {
 	var wg sync.WaitGroup
 	// every goroutine starts by creating the same, not yet existing bucket and uploading into it:
 	// whatever the creations' order, an upload that was answered 200 is still there at the end
-	const nFresh = 16
+	const nFresh = 96
 	var fresh [8 * nFresh]int32
 	var bar [nFresh]sync.WaitGroup // all goroutines reach each creation at the same moment
 	for b := range bar {
@@ -409,9 +409,9 @@ func raceGCS(seed int64) {
 			for b := 0; b < nFresh; b++ {
 				bar[b].Done()
 				bar[b].Wait()
-				// even buckets: everybody creates explicitly, then uploads; odd buckets: the bucket comes
+				// every fourth bucket: everybody creates explicitly, then uploads; the others: the bucket comes
 				// into existence with the first upload, and only goroutine 0 creates it explicitly
-				if b%2 == 0 || g == 0 {
+				if b%4 == 0 || g == 0 {
 					do("POST", "/storage/v1/b", url.Values{"project": {"p"}}, map[string]string{"Content-Type": "application/json"}, []byte(fmt.Sprintf(`{"name":"fresh%d"}`, b)))
 				}
 				if rec := do("POST", fmt.Sprintf("/upload/storage/v1/b/fresh%d/o", b), url.Values{"uploadType": {"media"}, "name": {fmt.Sprintf("n%d", g)}}, map[string]string{"Content-Type": "text/plain"}, []byte("kept")); rec.Code == 200 {
